@@ -99,6 +99,35 @@ Theorem C18_crash_leaves_others : forall tgt tmp s d i k s' q,
 Proof. exact crash_leaves_others. Qed.
 Print Assumptions C18_crash_leaves_others.
 
+(* ---- several flushes in a row, each interrupted anywhere, the server restarting in between ----
+   The state a crash leaves behind (stray temporary files with arbitrary partial content) is the start
+   state of the next flush.  The target always holds the original table or one of those flushed so far,
+   and a flush that completes makes it hold exactly the table flushed last. *)
+Theorem C18_crash_then_flush_atomic : forall (T : Type) (encode : T -> bytes) (decode : bytes -> option T) (dflt : T) tgt,
+  roundtrip encode decode -> forall rounds : list (T * path),
+  Forall (fun r => snd r <> tgt) rounds ->
+  forall s s', In s' (crash_runs s (map (flush_of encode tgt) rounds)) ->
+  (fload decode dflt tgt s' = fload decode dflt tgt s \/
+   exists r, In r rounds /\ fload decode dflt tgt s' = Some (fst r)) /\
+  (forall t tmp, tmp <> tgt -> fload decode dflt tgt (run s' (safe_flush tgt tmp (encode t))) = Some t).
+Proof. exact (@crash_then_flush_atomic). Qed.
+Print Assumptions C18_crash_then_flush_atomic.
+
+(* one fixed temporary name, opened without truncation and reused by the next flush: after a flush of a
+   big table was interrupted past its write, a completed flush of a smaller table renames into place the
+   new JSON followed by the tail of the abandoned write; the restarted server does not load it *)
+Theorem C18_crash_then_reuse_flush_refuted : forall (T : Type) (encode : T -> bytes) (decode : bytes -> option T) (dflt : T) tgt tmp,
+  tmp <> tgt -> forall s tb ts,
+  s tmp = None -> (length (encode ts) < length (encode tb))%nat ->
+  exists i k s1, In (i, k, s1) (crash_states s (reuse_flush tgt tmp (encode tb))) /\
+    s1 tgt = s tgt /\
+    let s2 := run s1 (reuse_flush tgt tmp (encode ts)) in
+    s2 tgt = Some (encode ts ++ skipn (length (encode ts)) (encode tb)) /\
+    skipn (length (encode ts)) (encode tb) <> [] /\
+    (trailing_invalid encode decode -> fload decode dflt tgt s2 = None).
+Proof. exact (@crash_then_reuse_flush_refuted). Qed.
+Print Assumptions C18_crash_then_reuse_flush_refuted.
+
 (* manager, file system and restart together: the process dies anywhere in manager.Flush (JSON provider,
    repaired writer); the restarted server starts, with the table a restart would have had before the
    flush or with exactly the table that was being flushed *)
@@ -174,6 +203,15 @@ Theorem C18_crash_model_passes : forall (T : Type) (encode : T -> bytes) (decode
 Proof. exact (@crash_model_passes). Qed.
 Print Assumptions C18_crash_model_passes.
 
+Theorem C18_round_model_passes : forall (T : Type) (encode : T -> bytes) (decode : bytes -> option T) (dflt : T) tgt,
+  forall teqb : T -> T -> bool, (forall t, teqb t t = true) ->
+  roundtrip encode decode -> forall tmp, tmp <> tgt -> forall s told t,
+  fload decode dflt tgt s = Some told ->
+  forall i k s', In (i, k, s') (crash_states s (safe_flush tgt tmp (encode t))) ->
+  round_ok teqb told t (Nat.eqb i 5) (fload decode dflt tgt s') = true.
+Proof. exact (@round_model_passes). Qed.
+Print Assumptions C18_round_model_passes.
+
 (* ---- non-vacuity ---- *)
 (* the JSON laws are satisfiable together *)
 Definition nv_encode (b : bool) : bytes := [if b then 49 else 48; 10].
@@ -188,6 +226,9 @@ Proof.
       exfalso; apply (PeanoNat.Nat.nlt_0_r k); do 2 apply PeanoNat.Nat.succ_lt_mono; exact Hk.
   - reflexivity.
 Qed.
+
+Example C18_nonvacuous_trailing : trailing_invalid nv_encode nv_decode.
+Proof. intros [|] [|x g] N; try contradiction; reflexivity. Qed.
 
 (* the hypotheses of the history theorems hold at the server's start, and a history with an update that keeps the
    password, a delete + re-create and flush + restart exercises them *)
